@@ -196,7 +196,11 @@ def py_poly(e):
     if isinstance(e, ast.BinOp) and isinstance(e.op, (ast.Add, ast.Sub, ast.Mult)):
         a, b = py_poly(e.left), py_poly(e.right)
         return a + b if isinstance(e.op, ast.Add) else a - b if isinstance(e.op, ast.Sub) else a * b
-    if isinstance(e, ast.Constant) and isinstance(e.value, int):
+    if isinstance(e, ast.UnaryOp) and isinstance(e.op, ast.USub):
+        return -py_poly(e.operand)
+    if isinstance(e, ast.UnaryOp) and isinstance(e.op, ast.UAdd):
+        return py_poly(e.operand)
+    if isinstance(e, ast.Constant) and isinstance(e.value, int) and not isinstance(e.value, bool):
         return Poly.const(e.value)
     return Poly.sym(pyfe.src(e))
 
